@@ -18,7 +18,7 @@ man = {
     "hooks": {
         "guard": "verif",
         "enable": "no hook is committed into /repo: harness files (all '//go:build verif'), the virtual packages internal/vexp, "
-                  "internal/vsched and instrumented copies of repo files are grafted at build time with "
+                  "internal/vhook, instrumented copies of repo files, text-patched seams and (for engine-B builds) a patched copy of four runtime files are grafted at build time with "
                   "`go test -c -tags verif -overlay build/<id>/overlay.json` run in /repo (bin/check regenerates the overlay from the current working tree on every run)",
         "baseline_off_cmd": BASE,
         "source_commits": [],
